@@ -1127,6 +1127,8 @@ def _get_exposed_property_value(obj: Any, propname: str, only_exposed: bool = Tr
     If the requested property is not a @property or not exposed,
     an AttributeError is raised instead.
     """
+    if not isinstance(propname, str):
+        raise AttributeError("attribute name must be a string")    # (it comes from the wire: whatever it is, it is not looked into)
     if is_private_attribute(propname):
         raise AttributeError("attempt to access private attribute '%s'" % propname)
     v = getattr(obj.__class__, propname)
@@ -1142,6 +1144,8 @@ def _set_exposed_property_value(obj: Any, propname: str, value: Any, only_expose
     If the requested property is not a @property or not exposed,
     an AttributeError is raised instead.
     """
+    if not isinstance(propname, str):
+        raise AttributeError("attribute name must be a string")
     if is_private_attribute(propname):
         raise AttributeError("attempt to access private attribute '%s'" % propname)
     v = getattr(obj.__class__, propname)
